@@ -688,12 +688,14 @@ func TestVerifReplay(t *testing.T) {
 func init() { replayGens["c11"] = replayC11 }
 
 func replayC11(o *Obligation) (string, string, string, bool) {
-	if !strings.HasPrefix(o.Name, "ds.set.") {
+	if !strings.HasPrefix(o.Name, "ds.set.") && !strings.HasPrefix(o.Name, "ds.setArithmetic.") && !strings.HasPrefix(o.Name, "ds.readableSet.") {
 		return "", "", "", false
 	}
 	src := `package ds
 
 import (
+	"math/rand"
+	"sort"
 	"testing"
 	"time"
 )
@@ -738,6 +740,218 @@ func TestVerifReplay(t *testing.T) {
 		case <-done:
 		case <-time.After(3 * time.Second):
 			t.Fatalf("REPLAY-VIOLATION ds.Set.%s did not return within 3s while an Apply was queued (re-entrant read lock on applyMutex)", o.name)
+		}
+	}
+	functionalChecks(t)
+}
+
+// every operation against a reference model (Go maps) over the universe 0..3: return values, reported diffs, contents
+func functionalChecks(t *testing.T) {
+	rng := rand.New(rand.NewSource(7))
+	pick := func() map[int]bool {
+		m := map[int]bool{}
+		for e := 0; e < 4; e++ {
+			if rng.Intn(2) == 0 {
+				m[e] = true
+			}
+		}
+		return m
+	}
+	mk := func(m map[int]bool) Set[int] {
+		r := NewSet[int]()
+		for e := 0; e < 4; e++ {
+			if m[e] {
+				r.Add(e)
+			}
+		}
+		return r
+	}
+	same := func(s ReadableSet[int], m map[int]bool) bool {
+		if s.Size() != len(m) {
+			return false
+		}
+		for e := range m {
+			if !s.Has(e) {
+				return false
+			}
+		}
+		return true
+	}
+	show := func(s ReadableSet[int]) []int { x := s.ToSlice(); sort.Ints(x); return x }
+	keys := func(m map[int]bool) []int {
+		var x []int
+		for e := range m {
+			x = append(x, e)
+		}
+		sort.Ints(x)
+		return x
+	}
+	for round := 0; round < 3000; round++ {
+		model := pick()
+		s := mk(model)
+		arg := pick()
+		arg2 := pick()
+		switch rng.Intn(7) {
+		case 0:
+			e := rng.Intn(4)
+			if got := s.Add(e); got != !model[e] {
+				t.Fatalf("REPLAY-VIOLATION ds.Set %v .Add(%d) = %v", keys(model), e, got)
+			}
+			model[e] = true
+		case 1:
+			e := rng.Intn(4)
+			if got := s.Delete(e); got != model[e] {
+				t.Fatalf("REPLAY-VIOLATION ds.Set %v .Delete(%d) = %v", keys(model), e, got)
+			}
+			delete(model, e)
+		case 2:
+			want := map[int]bool{}
+			for e := range arg {
+				if !model[e] {
+					want[e] = true
+				}
+			}
+			if got := s.AddAll(mk(arg)); !same(got, want) {
+				t.Fatalf("REPLAY-VIOLATION ds.Set %v .AddAll(%v) reports %v, the elements whose membership changed are %v", keys(model), keys(arg), show(got), keys(want))
+			}
+			for e := range arg {
+				model[e] = true
+			}
+		case 3:
+			want := map[int]bool{}
+			for e := range arg {
+				if model[e] {
+					want[e] = true
+				}
+			}
+			if got := s.DeleteAll(mk(arg)); !same(got, want) {
+				t.Fatalf("REPLAY-VIOLATION ds.Set %v .DeleteAll(%v) reports %v, the elements whose membership changed are %v", keys(model), keys(arg), show(got), keys(want))
+			}
+			for e := range arg {
+				delete(model, e)
+			}
+		case 4, 5:
+			// Apply / Compute: additions first, then deletions
+			wantAdd, wantDel := map[int]bool{}, map[int]bool{}
+			mid := map[int]bool{}
+			for e := range model {
+				mid[e] = true
+			}
+			for e := range arg {
+				if !mid[e] {
+					wantAdd[e] = true
+				}
+				mid[e] = true
+			}
+			for e := range arg2 {
+				if mid[e] {
+					wantDel[e] = true
+				}
+				delete(mid, e)
+			}
+			mut := NewSetMutations[int]().WithAddedElements(mk(arg)).WithDeletedElements(mk(arg2))
+			var got SetMutations[int]
+			name := "Apply"
+			if rng.Intn(2) == 0 {
+				got = s.Apply(mut)
+			} else {
+				name = "Compute"
+				got = s.Compute(func(ReadableSet[int]) SetMutations[int] { return mut })
+			}
+			if !same(got.AddedElements(), wantAdd) || !same(got.DeletedElements(), wantDel) {
+				t.Fatalf("REPLAY-VIOLATION ds.Set %v .%s(add %v, delete %v) reports added %v deleted %v, expected added %v deleted %v", keys(model), name, keys(arg), keys(arg2), show(got.AddedElements()), show(got.DeletedElements()), keys(wantAdd), keys(wantDel))
+			}
+			model = mid
+		case 6:
+			if got := s.Replace(mk(arg)); !same(got, model) {
+				t.Fatalf("REPLAY-VIOLATION ds.Set %v .Replace(%v) returns %v as the previous elements", keys(model), keys(arg), show(got))
+			}
+			model = arg
+		}
+		if !same(s, model) {
+			t.Fatalf("REPLAY-VIOLATION ds.Set holds %v, the model %v", show(s), keys(model))
+		}
+	}
+	// SetArithmetic collectors sharing one mutations object: all histories of up to 6 steps on one element - the net
+	// mutation is the membership change (count >= threshold) between start and end
+	for threshold := 1; threshold <= 3; threshold++ {
+		for initial := 0; initial <= 3; initial++ {
+			for length := 0; length <= 6; length++ {
+				for history := 0; history < 1<<length; history++ {
+					a := NewSetArithmetic[int]()
+					seed := a.AddedElementsCollector(NewSetMutations[int](), threshold)
+					for i := 0; i < initial; i++ {
+						seed(7)
+					}
+					m := NewSetMutations[int]()
+					add, sub := a.AddedElementsCollector(m, threshold), a.SubtractedElementsCollector(m, threshold)
+					count, trace := initial, ""
+					for step := 0; step < length; step++ {
+						if history&(1<<step) != 0 {
+							add(7)
+							count++
+							trace += "+"
+						} else {
+							sub(7)
+							count--
+							trace += "-"
+						}
+					}
+					was, is := initial >= threshold, count >= threshold
+					if m.AddedElements().Has(7) != (!was && is) || m.DeletedElements().Has(7) != (was && !is) {
+						t.Fatalf("REPLAY-VIOLATION SetArithmetic collectors, threshold %d, initial count %d, steps %q: collected added %v deleted %v, the membership went %v -> %v", threshold, initial, trace, m.AddedElements().Has(7), m.DeletedElements().Has(7), was, is)
+					}
+				}
+			}
+		}
+	}
+	// SetArithmetic: net mutations of occurrence counts crossing the threshold
+	for round := 0; round < 2000; round++ {
+		a := NewSetArithmetic[int]()
+		count := map[int]int{}
+		for step := 0; step < 4; step++ {
+			adds, dels := pick(), pick() // may overlap: an element added and deleted by one report cancels out
+			threshold := 1 + rng.Intn(2)
+			subtract := rng.Intn(2) == 0
+			wantAdd, wantDel := map[int]bool{}, map[int]bool{}
+			apply := func(e int, delta int) {
+				before := count[e]
+				count[e] += delta
+				if before < threshold && count[e] >= threshold {
+					if wantDel[e] {
+						delete(wantDel, e)
+					} else {
+						wantAdd[e] = true
+					}
+				}
+				if before >= threshold && count[e] < threshold {
+					if wantAdd[e] {
+						delete(wantAdd, e)
+					} else {
+						wantDel[e] = true
+					}
+				}
+			}
+			for e := 0; e < 4; e++ {
+				if adds[e] {
+					apply(e, map[bool]int{false: 1, true: -1}[subtract])
+				}
+			}
+			for e := 0; e < 4; e++ {
+				if dels[e] {
+					apply(e, map[bool]int{false: -1, true: 1}[subtract])
+				}
+			}
+			mut := NewSetMutations[int]().WithAddedElements(mk(adds)).WithDeletedElements(mk(dels))
+			var got SetMutations[int]
+			if subtract {
+				got = a.Subtract(mut, threshold)
+			} else {
+				got = a.Add(mut, threshold)
+			}
+			if !same(got.AddedElements(), wantAdd) || !same(got.DeletedElements(), wantDel) {
+				t.Fatalf("REPLAY-VIOLATION SetArithmetic (subtract %v, threshold %d) report add %v delete %v: net added %v deleted %v, the threshold crossings are added %v deleted %v", subtract, threshold, keys(adds), keys(dels), show(got.AddedElements()), show(got.DeletedElements()), keys(wantAdd), keys(wantDel))
+			}
 		}
 	}
 }
